@@ -1088,7 +1088,9 @@ class Grid2D(Structure):
         Whether the grid is uniform.
         """
 
-        y_diff = self[:, 0][:-1] - self[:, 0][1:]
+        y = np.asarray(self.slim.array)[:, 0]
+
+        y_diff = y[:-1] - y[1:]
         y_diff = y_diff[y_diff != 0]
 
         if any(abs(y_diff - self.pixel_scales[0]) > 1.0e-8):
